@@ -41,7 +41,7 @@ import (
 var Entries = []string{
 	"Decode", "DecodeTiff", "DecodeJPEG", "DecodePng", "DecodeCR3", "DecodeCR2", "DecodeHeif", "PreviewCR3",
 	"ExifParse", "ScanJPEG", "ScanJPEGDrain", "ScanTiffHeader", "ScanPngHeader", "BMFF", "ParseXmp",
-	"ItScan", "ItScanBuf", "ItReadAt", "ItBuf",
+	"ItScan", "ItScanBuf", "ItReadAt", "ItBuf", "ItHelpers",
 }
 
 // ReaderSpec describes the io.ReadSeeker put in front of the input.
@@ -491,6 +491,9 @@ func call(q Req, in *Inst) (dig string, errs string) {
 			dig = digest.Of(x)
 		}
 		keep(x)
+	case "ItHelpers":
+		// the exported signature tests that take the bytes themselves (no reader)
+		dig = fmt.Sprint(imagetype.IsTiffLittleEndian(q.Input), imagetype.IsTiffBigEndian(q.Input), utils.BinaryOrder(q.Input))
 	case "ItScan":
 		var t imagetype.ImageType
 		t, err = imagetype.Scan(plain)
